@@ -357,6 +357,11 @@ val chars_of : akind option -> content -> (dtype * datum list) option
 val range_events :
   (z -> ev list res) -> (dtype * datum list) option -> z -> z -> ev list res
 
+val pick_nth : (content -> 'a1 res) -> content list -> nat -> 'a1 res
+
+val fields_ev :
+  (content -> ev list res) -> content list -> bytes list -> ev list res
+
 val tuple_keys : nat -> bytes list
 
 val item : jopts -> akind option -> content -> z -> ev list res
@@ -485,6 +490,8 @@ type jres =
 | JErr of jerr
 
 val do_parse_loop : nat -> jopts -> z list -> ev list list -> jres
+
+val do_parse_text : jopts -> z list -> jres
 
 val do_parse : jopts -> z list -> jres
 
